@@ -19,6 +19,7 @@ def check(chk, thorough=False):
     chk.run('C11.b', 'R-PAIR', 'an edit of a parsed block payload is followed by invalidating the cached encoded data before the next encode', lambda ob: c11b(tree, ob), floor=1)
     chk.run('C11.c', 'R-ITER+R-FLOW', 'old Previous Node / Age blocks are all removed (loop not invalidated by the removal), exactly one Previous Node naming this node is added, hop count + 1, age = now - creation only when creation time is known', lambda ob: c11c(tree, ob), floor=5)
     chk.run('C11.d', 'R-FLOW', 'new blocks go before the payload with an unused number; the payload block is number 1; duplicates are rejected; removal finds the block whatever its position', lambda ob: c11d(tree, ob), floor=5)
+    chk.run('C11.h', 'R-FLOW', 'the octets send_bundle() hands to a convergence-layer adaptor reach the CL send method unchanged (wrapped as a D-Bus byte array at most), also when they wait for a session first', lambda ob: c11h(tree, ob), floor=6)
     chk.run('C11.g', 'R-GUARD', 'a bundle that must not be fragmented, or is a fragment already, is never cut (its flags, payload and fragment fields stay as received) (= C05.a)', lambda ob: _c05a(tree, ob), floor=2)
     chk.run('C11.f', 'sibling', 'what is decoded is re-encoded unchanged: codec agreement, preserved flag bits / EID text / time values, RFC layouts (= C02.a, C02.c, C02.e)', lambda ob: _c02(tree, ob), floor=40)
     chk.run('C11.e', 'R-ORDER', 'CRCs are computed on the bytes actually sent (= C08.a)', lambda ob: c08a(tree, ob), floor=3)
@@ -416,3 +417,61 @@ def c11d(tree, ob):
         upd = [c for c in calls_in(fr.func) if isinstance(c.func, ast.Attribute) and (self_attr(c.func.value) == attr or (isinstance(c.func.value, ast.Subscript) and self_attr(c.func.value.value) == attr)) and c.func.attr in ('pop', 'remove')]
         if not upd or not fr.cfg.must_pass(fr.node(p), fr.cfg.exit, {fr.node(u) for u in upd}, include_exc=False)[0]:
             ob.violate(UTIL, fr.qual, 'self.{}'.format(attr), 'index {} is not updated when a block is removed'.format(attr), p)
+
+
+
+def c11h(tree, ob):
+    ''' "The bytes actually transmitted": behind Agent.send_bundle() the encoded bundle passes through the sender closure of
+    the adaptor (bp/cla.py) into <proxy>.send_bundle_data().  Every such call is enumerated; its data argument, with local
+    names resolved, must be the closure parameter itself (or a queued copy of it), wrapped in dbus.ByteArray / bytes at most. '''
+    CLA = 'bp/cla.py'
+    WRAP = ('dbus.ByteArray', 'bytes')
+
+    def unwrap(node):
+        while isinstance(node, ast.Call) and (call_name(node) or '') in WRAP and len(node.args) == 1 and not node.keywords:
+            node = node.args[0]
+        return node
+
+    n = 0
+    queued_ok = set()
+    funcs = list(tree.all_functions([CLA]))
+    # 1. what is parked while no session exists
+    for (r, qual, func) in funcs:
+        params = [a.arg for a in func.args.args]
+        for c in calls_in(func):
+            got = pm('self._sess_wait[$k].append($d)', c)
+            if got is None:
+                continue
+            n += 1
+            fv = FuncView(tree, CLA, qual)
+            d = unwrap(fv.value_at(got['d'], c, depth=3, keep=tuple(params)))
+            if isinstance(d, ast.Name) and d.id in params and not [x for x in walk_local(func) if isinstance(x, ast.Name) and x.id == d.id and isinstance(x.ctx, ast.Store)]:
+                ob.site(CLA, c, qual + ': the data itself waits for the session')
+                queued_ok.add('self._sess_wait')
+            else:
+                ob.violate(CLA, qual, src(c)[:80], 'what is parked for a later session is not the data that was handed over', c)
+    # 2. every hand-over to a CL proxy
+    for (r, qual, func) in funcs:
+        params = [a.arg for a in func.args.args]
+        fv = None
+        for c in calls_in(func):
+            if not (isinstance(c.func, ast.Attribute) and c.func.attr == 'send_bundle_data' and c.args):
+                continue
+            n += 1
+            fv = fv or FuncView(tree, CLA, qual)
+            d = unwrap(fv.value_at(c.args[0], c, depth=3, keep=tuple(params)))
+            ok = False
+            if isinstance(d, ast.Name) and d.id in params:
+                ok = not [x for x in walk_local(func) if isinstance(x, ast.Name) and x.id == d.id and isinstance(x.ctx, ast.Store)]
+            elif isinstance(d, ast.Name):
+                # a loop variable over the parked list
+                loop = enclosing(c, ast.For)
+                if loop is not None and src(loop.target) == d.id:
+                    it = fv.value_at(loop.iter, loop, depth=3)
+                    ok = 'self._sess_wait' in queued_ok and pm('self._sess_wait.get($k, [])', it) is not None or pm('self._sess_wait[$k]', it) is not None or pm('self._sess_wait.pop($k, [])', it) is not None
+            if ok:
+                ob.site(CLA, c, qual + ': data handed to the CL unchanged')
+            else:
+                ob.violate(CLA, qual, src(c)[:80] + '  with data = ' + src(d)[:40], 'the octets handed to the convergence layer are not the octets send_bundle() encoded (sliced, re-encoded or taken from '
+                           'somewhere else): the transmitted bundle differs from the one whose blocks and CRCs were prepared', c)
+    ob.require(n >= 6, 'send_bundle_data / parking sites in bp/cla.py: {}'.format(n))
